@@ -49,7 +49,7 @@ func (c *memCache) Set(ctx context.Context, url string, b *corecrl.Bundle) error
 // bodies, answering immediately, with 1..32 concurrent callers sharing one
 // validator, client, fetcher and cache. It is meant to be built with -race.
 func RacePass() int {
-	patterns := []string{"GGGG", "FFFF", "FLXR", "RGFG"}
+	patterns := []string{"GGGG", "FFFF", "FLXR", "RGFG", "DFD"}
 	callersList := []int{1, 2, 4, 8, 16, 32}
 	total := 0
 	for _, pat := range patterns {
@@ -84,7 +84,8 @@ func RacePass() int {
 					if src.kind == "ocsp" {
 						return w.serveOCSP(src, ocspByName(ocspClassNames[oc]))
 					}
-					return w.serveCRL(src, crlByName(crlClassNames[cc]))
+					_ = cc
+					return w.serveCRL(src, crlBehaviourFor(pat[src.cert]))
 				}
 				hf, _ := corecrl.NewHTTPFetcher(tr.Client())
 				hf.Cache = &memCache{m: map[string]*corecrl.Bundle{}}
